@@ -165,6 +165,7 @@ package dnsforward
 // Prepare runs at start-up before the server is shared, and later from Reconfigure under the server lock.
 //@ func (s *Server) Prepare(conf *ServerConfig) (err error)
 //@   construction
+//@   requires s.dnsFilter != nil ==> !held(s.dnsFilter.confMu) && !rheld(s.dnsFilter.confMu)
 //@   modifies *
 
 // The configuration-modified callback writes the configuration file and takes this package's configuration lock again
@@ -219,13 +220,14 @@ package dnsforward
 //@ func (s *Server) filterDNSResponse(dctx *dnsContext) (err error)
 //@   property C02
 //@   requires !held(s.serverLock) && !rheld(s.serverLock)
+//@   requires dnsFilterIdle(s)
 //@   requires dctx.setts != nil && dctx.proxyCtx != nil && dctx.proxyCtx.Res != nil && dctx.proxyCtx.Req != nil && len(dctx.proxyCtx.Req.Question) > 0
 //@   ensures filtering-off: !old(dctx.setts.FilteringEnabled) ==> err == nil && dctx.proxyCtx.Res == old(dctx.proxyCtx.Res) && dctx.result == old(dctx.result)
 //@   ensures replaced: err == nil && dctx.proxyCtx.Res != old(dctx.proxyCtx.Res) ==> fresh(dctx.proxyCtx.Res) && dctx.origResp == old(dctx.proxyCtx.Res) && dctx.result != nil && dctx.result.IsFiltered
 //@   ensures delivered-unchanged: err == nil && old(dctx.setts.FilteringEnabled) && dctx.proxyCtx.Res == old(dctx.proxyCtx.Res) ==> (forall k int :: 0 <= k && k < len(old(dctx.proxyCtx.Res.Answer)) ==> !rrBlocked(old(dctx.proxyCtx.Res.Answer)[k], old(dctx.setts))) && dctx.result == old(dctx.result) && dctx.origResp == old(dctx.origResp)
 //@   modifies *
 //@   loop 1 invariant dctx.proxyCtx == pctx && dctx.setts == setts && setts == old(dctx.setts) && pctx == old(dctx.proxyCtx) && pctx.Res == old(dctx.proxyCtx.Res) && pctx.Req == old(dctx.proxyCtx.Req) && len(pctx.Req.Question) > 0
-//@   loop 1 invariant dctx.result == old(dctx.result) && dctx.origResp == old(dctx.origResp) && !held(s.serverLock) && !rheld(s.serverLock)
+//@   loop 1 invariant dctx.result == old(dctx.result) && dctx.origResp == old(dctx.origResp) && !held(s.serverLock) && !rheld(s.serverLock) && dnsFilterIdle(s)
 //@   loop 1 invariant forall k int :: {mark(k)} 0 <= k && k < len(old(dctx.proxyCtx.Res.Answer)) ==> pctx.Res.Answer[k] == old(dctx.proxyCtx.Res.Answer)[k]
 //@   loop 1 invariant len(pctx.Res.Answer) == len(old(dctx.proxyCtx.Res.Answer))
 //@   loop 1 invariant forall k int :: {mark(k)} 0 <= k && k < #i ==> !rrBlocked(old(dctx.proxyCtx.Res.Answer)[k], setts)
@@ -236,6 +238,7 @@ package dnsforward
 //@ func (s *Server) filterAfterResponse(dctx *dnsContext) (res resultCode)
 //@   property C02
 //@   requires !held(s.serverLock) && !rheld(s.serverLock)
+//@   requires dnsFilterIdle(s)
 //@   requires dctx.setts != nil && dctx.proxyCtx != nil && dctx.proxyCtx.Res != nil && dctx.proxyCtx.Req != nil && len(dctx.proxyCtx.Req.Question) > 0
 //@   ensures not-applicable: !(old(dctx.protectionEnabled) && old(dctx.responseFromUpstream) && old(dctx.setts.FilteringEnabled)) ==> res == resultCodeSuccess && dctx.proxyCtx.Res == old(dctx.proxyCtx.Res) && dctx.result == old(dctx.result)
 //@   ensures delivered-only-if-clean: old(dctx.protectionEnabled) && old(dctx.responseFromUpstream) && old(dctx.setts.FilteringEnabled) && res == resultCodeSuccess && dctx.proxyCtx.Res == old(dctx.proxyCtx.Res) ==> (forall k int :: 0 <= k && k < len(old(dctx.proxyCtx.Res.Answer)) ==> !rrBlocked(old(dctx.proxyCtx.Res.Answer)[k], old(dctx.setts)))
@@ -398,7 +401,7 @@ package dnsforward
 
 // Whatever the reason and the query type, a filtered result is turned into a locally built reply to the same question.
 //@ func (s *Server) genDNSFilterMessage(dctx *proxy.DNSContext, res *filtering.Result) (resp *dns.Msg)
-//@   property C01, C02
+//@   property C01
 //@   requires dctx.Req != nil && len(dctx.Req.Question) > 0 && dnsFilterIdle(s)
 //@   ensures local: localReply(resp, dctx.Req) && dctx.Req.Question[0] == old(dctx.Req.Question[0])
 //@   ensures other-types: old(dctx.Req.Question[0].Qtype) != 1 && old(dctx.Req.Question[0].Qtype) != 28 && old(dctx.Req.Question[0].Qtype) != 65 ==> resp.Rcode == 0 && len(resp.Answer) == 0
